@@ -315,6 +315,7 @@ def run_case(case, modules):
     sched = vt.Sched(policy=make_policy(case, None), t0=case['t0'], trace=TRACE, namer=namer,
                      max_steps=case.get('max_steps', 60000), watchdog_s=60.0)
     sched.repo_root = REPO
+    sched.time_drift = case.get('drift', 0.0)
     sched.on_exec = make_on_exec(obs, sched, 'S', ctx)
     undo = vt.install(sched, clock_mod)
     patterns = {}
@@ -660,6 +661,50 @@ FIXED_SCRIPT = [
 ]
 
 
+def drift_cases(chk, modules, stats):
+    """A time-of-day wait decides on what the wall clock SAYS, and the wall clock moves between
+    any two readings of it: here every reading advances virtual time by 1/1024 s, and the waits
+    start a few readings before a minute or an hour ends.  Oracle: when the wait returns, the
+    pattern matches the time of day at some instant of the last few readings — never a
+    combination of the hour of one reading and the minute of another."""
+    drift = 1.0 / 1024
+    texts = []
+    for h in (0, 9, 10, 23):
+        nxt = (h + 1) % 24
+        texts += [(h, '{}:00'.format(h)), (h, '{}:*'.format(h)), (h, '{}:00|12:30'.format(h)),
+                  (h, '{}:59'.format(nxt)), (h, '*:00'), (h, '{}:0*'.format(h)), (h, '{}:59|{}:00'.format(nxt, h))]
+    n = 0
+    for h, text in texts:
+        for minute, back in ((59, 1), (59, 2), (59, 3), (29, 1), (29, 2), (0, 1)):
+            # the wait starts `back` readings before minute `minute` of hour h ends
+            t0 = DAY0 + h * 3600 + minute * 60 + 60 - back * drift
+            case = {'mode': 'clock', 'tick': 15.0, 't0': t0, 'ops': [('until', text)], 'policy': ('solo',),
+                    'drift': drift, 'max_steps': 6000, 'id': 'drift-{}'.format(n),
+                    'expect': [('until', text)]}
+            n += 1
+            obs = run_case(case, modules)
+            chk.count()
+            stats['drift_cases'] = stats.get('drift_cases', 0) + 1
+            if obs.outcome != 'done' or not obs.ops or obs.ops[0]['ret'] is None:
+                if obs.outcome in ('step-limit',):
+                    continue        # a wait of many hours at this tick: not decided here
+                chk.violation('run-fails', 'time-of-day wait for {} from second {} of the day: outcome {}'.format(
+                    text, t0 % 86400, obs.outcome), {k: v for k, v in case.items()})
+                continue
+            r = obs.ops[0]['ret']
+            window = [r - k * drift for k in range(0, 6)]
+            if not any(spec_matches(text, w) for w in window):
+                tod = r % 86400
+                chk.violation('time-at-returns-at-wrong-time',
+                              'wait for {} started at {:02d}:{:02d}:{:06.3f} returned at {:02d}:{:02d}:{:06.3f}, '
+                              'a minute no listed pattern matches (the clock advances {} s between two '
+                              'readings)'.format(text, int(t0 % 86400 // 3600), int(t0 % 3600 // 60), t0 % 60,
+                                                 int(tod // 3600), int(tod % 3600 // 60), tod % 60, drift),
+                              {k: v for k, v in case.items()})
+            else:
+                chk.nontrivial_case(('drift', text, minute, back))
+
+
 # ---------------------------------------------------------------- main
 def main():
     chk = Check('C10')
@@ -756,6 +801,8 @@ def main():
                             'ops': [list(o) for o in spec_ops][:6],
                             'returns_after_start': [float(frac(r['ret']) - frac(obs.start))
                                                     for r in obs.ops if r['ret'] is not None][:6]})
+
+    drift_cases(chk, modules, stats)
 
     # WAIT's choice: the real Machine._wait against the spec and the model
     from bardolph.vm.machine import Machine
